@@ -1049,3 +1049,35 @@ Definition norm_items (o : opts) (ts : list tok) : list item :=
   let t := if o_merge_derives o then merge_derives t else t in
   norm_tree o t.
 Definition norm (o : opts) (ts : list tok) : list text := flatten (norm_items o ts).
+
+(* ------------------------------------------------------------------ *)
+(* specification-level definitions used by the theorems of Props.v *)
+
+(* the atoms of a program: its significant tokens, literals and doc comments in normalised spelling,
+   delimiters nested and flattened again *)
+Definition atoms_of (o : opts) (ts : list tok) : list text := flatten (tree o (significant ts)).
+
+(* the pipeline with reorder_runs (norm_tree) and merge_derives switched off *)
+Definition norm_core_items (o : opts) (ts : list tok) : list item :=
+  norm_seq o None (tree o (significant ts)).
+Definition norm_core (o : opts) (ts : list tok) : list text := flatten (norm_core_items o ts).
+
+(* the two-character tokens made by glue, split again *)
+Definition s_minus : text := Eval compute in T "-".
+Definition unglue1 (t : text) : list text :=
+  if eqb_text t s_coloncolon then [s_colon; s_colon]
+  else if eqb_text t s_arrow then [s_minus; s_gt]
+  else if eqb_text t s_fatarrow then [s_eq; s_gt]
+  else [t].
+Definition unglue (l : list text) : list text := flat_map unglue1 l.
+
+(* the separators and markers that some normalisation of the closed list may insert or remove; every other
+   atom (identifier, keyword, literal, lifetime, operator character, doc comment, attribute mark) is essential *)
+Definition inessential : list text :=
+  [s_comma; s_semi; s_pipe; s_lparen; s_rparen; s_lbrack; s_rbrack; s_lbrace; s_rbrace; s_lt; s_gt; s_colon;
+   s_abiC; s_in; s_where; s_for].
+Definition essential (t : text) : bool :=
+  negb (match t with [] => true | _ :: _ => false end || mem_text t inessential).
+Definition ess (l : list text) : list text := filter essential (unglue l).
+(* merging derives also drops one attribute mark and one `derive` per merged attribute *)
+Definition essential_md (t : text) : bool := essential t && negb (mem_text t [s_hash; s_derive]).
